@@ -60,6 +60,7 @@ type funcInfo struct {
 }
 
 type G struct {
+	pending    []ts.Stmt // definitions to be emitted in front of the function that is being generated
 	t          *rapid.T
 	cfg        Cfg
 	scopes     [][]*varInfo
@@ -813,6 +814,20 @@ func (g *G) multiFuncs() []*funcInfo {
 		}
 	}
 	return out
+}
+
+// identityFunc returns (and defines on first use) the identity function of a scalar type.
+func (g *G) identityFunc(ty ts.Type) *funcInfo {
+	name := map[ts.Type]string{ts.TInt: "idi", ts.TBool: "idb", ts.TString: "ids"}[ty]
+	for _, f := range g.funcs {
+		if f.Name == name {
+			return f
+		}
+	}
+	fi := &funcInfo{Name: name, Params: []ts.Param{{Name: "idv", Ty: ty}}, Rets: []ts.Type{ty}} // a parameter name no pool contains
+	g.funcs = append(g.funcs, fi)
+	g.pending = append(g.pending, ts.FuncDef{Name: name, Params: fi.Params, Rets: fi.Rets, Body: []ts.Stmt{ts.Return{Vals: []ts.Expr{ts.VarRef{Name: "idv", Ty: ty}}}}})
+	return fi
 }
 
 // wantedCall returns a definition x, y := f(...) for a function that asked to be called (see funcInfo.WantCall).
@@ -1866,6 +1881,24 @@ func (g *G) funcDef() ts.Stmt {
 		// before the next call overwrites the return registers
 		direct := nr > 1 && g.chance("return-direct-calls", 55)
 		for ri, rt := range fi.Rets {
+			if direct && !rt.IsSlice() && g.chance("return-identity-call", 60) {
+				// identity functions make the returned call results differ from each other (id(3), id(4)), so a
+				// result that is overwritten by a later call shows
+				id := g.identityFunc(rt)
+				var arg ts.Expr
+				switch rt {
+				case ts.TInt:
+					arg = ts.IntLit{V: int64(10*(ri+1) + g.intn("id-arg", 0, 9))}
+				case ts.TBool:
+					arg = ts.BoolLit{V: ri%2 == 0}
+				default:
+					arg = ts.StrLit{V: fmt.Sprintf("r%d", ri)}
+				}
+				r.Vals = append(r.Vals, ts.Call{Name: id.Name, Args: []ts.Expr{arg}, Rets: id.Rets})
+				g.tag("return-of-direct-calls")
+				fi.WantCall = true
+				continue
+			}
 			if direct {
 				if cs := g.callsReturning(rt); len(cs) > 0 {
 					r.Vals = append(r.Vals, g.callExpr(cs[g.intn("fn", 0, len(cs)-1)], 1))
@@ -1942,7 +1975,10 @@ func Stmts(t *rapid.T, cfg Cfg) ([]ts.Stmt, map[string]int) {
 	nf := 0
 	for g.budget > 0 {
 		if cfg.Funcs && nf < cfg.MaxFuncs && g.chance("def-func", 22) {
-			out = append(out, g.funcDef())
+			fd := g.funcDef()
+			out = append(out, g.pending...) // helper definitions the new function relies on
+			g.pending = nil
+			out = append(out, fd)
 			nf++
 			continue
 		}
